@@ -439,9 +439,35 @@ pub fn check_upd(c: &UpdCase, ctx: &mut Ctx) -> CheckResult {
                                     if size {
                                         mm.m += 1;
                                     } else {
-                                        // move one entry to a different (free) row of its column, or add one entry
+                                        // move one entry to a different (free) row of its column (column counts unchanged),
+                                        // or else add one entry
                                         let mut changed = false;
+                                        if *use_zip {
+                                            'mv: for col in 0..mm.n {
+                                                let (f, l) = (mm.colptr[col], mm.colptr[col + 1]);
+                                                if l == f {
+                                                    continue;
+                                                }
+                                                let rmax = if matches!(item, Item::A) { mm.m } else { col + 1 };
+                                                for r in 0..rmax {
+                                                    if !mm.rowval[f..l].contains(&r) {
+                                                        mm.rowval[f] = r;
+                                                        let mut pairs: Vec<(usize, f64)> = (f..l).map(|q| (mm.rowval[q], mm.nzval[q])).collect();
+                                                        pairs.sort_by_key(|e| e.0);
+                                                        for (q, (rr, vv)) in (f..l).zip(pairs) {
+                                                            mm.rowval[q] = rr;
+                                                            mm.nzval[q] = vv;
+                                                        }
+                                                        changed = true;
+                                                        break 'mv;
+                                                    }
+                                                }
+                                            }
+                                        }
                                         'outer: for col in 0..mm.n {
+                                            if changed {
+                                                break;
+                                            }
                                             for r in 0..mm.m {
                                                 if (matches!(item, Item::A) || r <= col) && mm.get_entry((r, col)).is_none() {
                                                     mm.set_entry((r, col), 1.0);
